@@ -437,6 +437,7 @@ pub fn replay(args: &[String]) {
     let mut max_tick = arg_u64(args, "--max-tick", 5);
     // the embeddings are tables over ticks: cover every time that occurs in the file
     for_each_line(path, |_, v| {
+        watchdog::tick();
         if let Some(ops) = v.as_array() {
             for e in ops {
                 for k in ["t", "time"] {
